@@ -12,14 +12,9 @@ def AlwaysFails (sc : Script) : Prop := ∀ n, ∃ u, sc.at n = .failT u
 /-- a task that answers `RUNNING` on every execution -/
 def AlwaysRunning (sc : Script) : Prop := ∀ n, ∃ u, sc.at n = .running u
 
-/-- the limit `handle_exception` reads off a message delivered from row `r`
-    (`message.max_attempts or 10`, where `message.max_attempts` is the dataclass default unless the
-    environment copies the column back) -/
-def seenMax (e : Env) (r : Row) : Nat :=
-  if e.restoreMax then (if r.maxCol = 0 then 10 else r.maxCol) else 10
-
-/-- the limit in force for a chain that starts with `max_attempts = m` on the first RunTask -/
-def limit (e : Env) (m : Nat) : Nat := seenMax e (initRow m)
+/-- the limit `handle_exception` reads off every delivered message: `message.max_attempts or 10`, where
+    `message.max_attempts` is the dataclass default (the payload field is popped, the column is not read back) -/
+def limit (e : Env) : Nat := if e.dfltMax = 0 then 10 else e.dfltMax
 
 /-- the context update an execution hands to the engine -/
 def updOf : Act → Ctx
@@ -39,113 +34,152 @@ theorem ctxAfter_eq_foldl (sc : Script) (c : Ctx) (n : Nat) :
   | zero => rfl
   | succ n ih => simp [ctxAfter, List.range_succ, List.foldl_append, ih]
 
-theorem limit_pos (e : Env) (m : Nat) : 0 < limit e m := by
-  unfold limit seenMax initRow
-  by_cases h : e.restoreMax <;> simp [h]
-  by_cases h0 : m = 0 <;> simp [h0]; omega
+theorem limit_pos (e : Env) : 0 < limit e := by
+  unfold limit
+  by_cases h0 : e.dfltMax = 0 <;> simp [h0]; omega
 
-theorem step_noRow (v : Variant) (e : Env) (sc : Script) (s : State) (op : Op) (h : s.row = none) :
-    step v e sc s op = (s, .noRow) := by
-  unfold step; simp [h]
+/-! ### `step`, case by case -/
 
-theorem step_stuck (v : Variant) (e : Env) (sc : Script) (s : State) (op : Op) (r : Row)
+theorem step_redeliver (v : Variant) (e : Env) (sc : Script) (s : State) (k : Nat) :
+    step v e sc s (.redeliver k) = stepRedeliver e s k := rfl
+
+/-- a redelivery of a left-behind row changes nothing but the list of left-behind rows -/
+theorem redeliver_core (e : Env) (s : State) (k : Nat) :
+    (stepRedeliver e s k).1.row = s.row ∧ (stepRedeliver e s k).1.ctx = s.ctx ∧
+    (stepRedeliver e s k).1.execs = s.execs ∧ (stepRedeliver e s k).1.seen = s.seen ∧
+    (stepRedeliver e s k).1.done = s.done := by
+  unfold stepRedeliver
+  cases s.stale[k]? with
+  | none => exact ⟨rfl, rfl, rfl, rfl, rfl⟩
+  | some r => simp only; split <;> exact ⟨rfl, rfl, rfl, rfl, rfl⟩
+
+theorem step_noRow (v : Variant) (e : Env) (sc : Script) (s : State) (op : Op) (hop : ∀ k, op ≠ .redeliver k)
+    (h : s.row = none) : step v e sc s op = (s, .noRow) := by
+  cases op with
+  | redeliver k => exact absurd rfl (hop k)
+  | handle => simp [step, stepLive, h]
+  | drop => simp [step, stepLive, h]
+  | lose => simp [step, stepLive, h]
+
+theorem step_stuck (v : Variant) (e : Env) (sc : Script) (s : State) (op : Op) (hop : ∀ k, op ≠ .redeliver k) (r : Row)
     (h : s.row = some r) (hq : ¬ r.attempts < e.qmax) : step v e sc s op = (s, .stuck) := by
-  unfold step; simp [h, pollOne, hq]
+  cases op with
+  | redeliver k => exact absurd rfl (hop k)
+  | handle => simp [step, stepLive, h, pollOne, hq]
+  | drop => simp [step, stepLive, h, pollOne, hq]
+  | lose => simp [step, stepLive, h, pollOne, hq]
 
 theorem step_drop (v : Variant) (e : Env) (sc : Script) (s : State) (r : Row)
     (h : s.row = some r) (hq : r.attempts < e.qmax) :
     step v e sc s .drop = ({ s with row := some (claimed r) }, .dropped (claimed r).attempts) := by
-  unfold step; simp [h, pollOne, hq]
+  simp [step, stepLive, h, pollOne, hq]
 
 theorem step_handle (v : Variant) (e : Env) (sc : Script) (s : State) (r : Row)
     (h : s.row = some r) (hq : r.attempts < e.qmax) :
     step v e sc s .handle = handleMsg v sc s (delivered e r) := by
-  unfold step; simp [h, pollOne, hq]
+  simp [step, stepLive, h, pollOne, hq]
 
-theorem effMax_delivered (e : Env) (r : Row) : effMax (delivered e r) = seenMax e r := by
-  unfold effMax seenMax delivered deserialize defaultMax
-  by_cases hr : e.restoreMax <;> simp [hr]
+theorem step_lose (v : Variant) (e : Env) (sc : Script) (s : State) (r : Row)
+    (h : s.row = some r) (hq : r.attempts < e.qmax) :
+    step v e sc s .lose =
+      ({ (handleMsg v sc s (delivered e r)).1 with stale := (handleMsg v sc s (delivered e r)).1.stale ++ [claimed r] },
+       .lostAck (handleMsg v sc s (delivered e r)).2) := by
+  simp [step, stepLive, h, pollOne, hq]
 
-/-- the retry row pushed by the fixed code for a message delivered from `r` -/
-theorem seenMax_push (v : Variant) (e : Env) (r : Row) (a : Nat) :
-    seenMax e (pushMessage v (copyWithAttempts (delivered e r) a)) = seenMax e r := by
-  unfold seenMax pushMessage copyWithAttempts delivered deserialize defaultMax
-  by_cases hr : e.restoreMax <;> simp [hr]
+theorem effMax_delivered (e : Env) (r : Row) : effMax (delivered e r) = limit e := by
+  unfold effMax limit delivered deserialize; rfl
 
-/-- invariant of the unfixed chain: the live row always has `attempts = 0` -/
-def CurInv (e : Env) (L : Nat) (s : State) (k : Nat) : Prop :=
-  s.execs = k ∧ s.done = none ∧ ∃ r, s.row = some r ∧ r.attempts = 0 ∧ seenMax e r = L
+/-! ### before the F1 repair -/
 
-theorem cur_step (e : Env) (hq : 0 < e.qmax) (L : Nat) (hL : 3 ≤ L) (sc : Script) (hf : AlwaysFails sc)
-    (s : State) (k : Nat) (h : CurInv e L s k) : CurInv e L (step .current e sc s .handle).1 (k + 1) := by
-  obtain ⟨hx, hd, r, hr, ha, hm⟩ := h
+/-- invariant of the legacy chain: the live row always has `attempts = 0` -/
+def LegacyInv (s : State) (k : Nat) : Prop :=
+  s.execs = k ∧ s.done = none ∧ ∃ r, s.row = some r ∧ r.attempts = 0
+
+theorem legacy_step (e : Env) (hq : 0 < e.qmax) (hL : 3 ≤ limit e) (sc : Script) (hf : AlwaysFails sc)
+    (s : State) (k : Nat) (h : LegacyInv s k) : LegacyInv (step .legacy e sc s .handle).1 (k + 1) := by
+  obtain ⟨hx, hd, r, hr, ha⟩ := h
   obtain ⟨u, hu⟩ := hf s.execs
   rw [step_handle _ e sc s r hr (by omega)]
   have hlt : (delivered e r).attempts + 1 < effMax (delivered e r) := by
-    rw [effMax_delivered, hm]; simp [delivered, ha]; omega
+    rw [effMax_delivered]; simp [delivered, ha]; omega
   simp only [handleMsg, hu, handleTransient, currentAttempts, hlt, if_true]
-  exact ⟨by simp [hx], hd, _, rfl, rfl, by rw [seenMax_push, hm]⟩
+  exact ⟨by simp [hx], hd, _, rfl, rfl⟩
 
-/-- invariant of the fixed chain, for scripts that always fail -/
-def FixInv (e : Env) (L : Nat) (s : State) : Prop :=
-  s.execs ≤ L ∧ ∀ r, s.row = some r → s.execs ≤ r.attempts ∧ s.execs < L ∧ seenMax e r = L
+/-! ### the code as it is -/
 
-theorem fix_step (e : Env) (L : Nat) (sc : Script) (hf : AlwaysFails sc) (s : State) (op : Op)
-    (h : FixInv e L s) : FixInv e L (step .fixed e sc s op).1 := by
+/-- invariant of the chain, for scripts that always fail -/
+def FixInv (L : Nat) (s : State) : Prop :=
+  s.execs ≤ L ∧ ∀ r, s.row = some r → s.execs ≤ r.attempts ∧ s.execs < L
+
+theorem fix_handleMsg (e : Env) (sc : Script) (hf : AlwaysFails sc) (s : State) (r : Row)
+    (hr : s.row = some r) (h : FixInv (limit e) s) : FixInv (limit e) (handleMsg .fixed sc s (delivered e r)).1 := by
   obtain ⟨hle, hrow⟩ := h
-  cases hr : s.row with
-  | none => rw [step_noRow _ _ _ _ _ hr]; exact ⟨hle, hrow⟩
-  | some r =>
-    obtain ⟨h1, h2, h3⟩ := hrow r hr
-    by_cases hq : r.attempts < e.qmax
-    · cases op with
-      | drop =>
-        rw [step_drop _ _ _ _ r hr hq]
-        refine ⟨hle, ?_⟩
-        intro r2 hr2
-        simp only [Option.some.injEq] at hr2
-        subst hr2
-        exact ⟨by simp only [claimed]; omega, h2, (rfl : seenMax e (claimed r) = seenMax e r).trans h3⟩
-      | handle =>
-        rw [step_handle _ _ _ _ r hr hq]
-        obtain ⟨u, hu⟩ := hf s.execs
-        simp only [handleMsg, hu, handleTransient, currentAttempts]
-        by_cases hlt : (delivered e r).attempts - 1 + 1 < effMax (delivered e r)
-        · simp only [hlt, if_true]
-          rw [effMax_delivered, h3] at hlt
-          simp only [delivered] at hlt
-          refine ⟨by simp only; omega, ?_⟩
+  obtain ⟨h1, h2⟩ := hrow r hr
+  obtain ⟨u, hu⟩ := hf s.execs
+  simp only [handleMsg, hu, handleTransient, currentAttempts]
+  by_cases hlt : (delivered e r).attempts - 1 + 1 < effMax (delivered e r)
+  · simp only [hlt, if_true]
+    rw [effMax_delivered] at hlt
+    simp only [delivered] at hlt
+    refine ⟨by simp only; omega, ?_⟩
+    intro r2 hr2
+    simp only [Option.some.injEq] at hr2
+    subst hr2
+    refine ⟨?_, by simp only; omega⟩
+    simp only [pushMessage, copyWithAttempts, delivered]; omega
+  · simp only [hlt, if_false]
+    exact ⟨by simp only; omega, by simp⟩
+
+theorem fix_step (e : Env) (sc : Script) (hf : AlwaysFails sc) (s : State) (op : Op)
+    (h : FixInv (limit e) s) : FixInv (limit e) (step .fixed e sc s op).1 := by
+  by_cases hop : ∃ k, op = .redeliver k
+  · obtain ⟨k, rfl⟩ := hop
+    rw [step_redeliver]
+    obtain ⟨h1, _, h3, _, _⟩ := redeliver_core e s k
+    unfold FixInv
+    rw [h1, h3]; exact h
+  · have hop' : ∀ k, op ≠ .redeliver k := fun k hk => hop ⟨k, hk⟩
+    cases hr : s.row with
+    | none => rw [step_noRow _ _ _ _ _ hop' hr]; exact h
+    | some r =>
+      by_cases hq : r.attempts < e.qmax
+      · cases op with
+        | redeliver k => exact absurd rfl (hop' k)
+        | drop =>
+          obtain ⟨hle, hrow⟩ := h
+          obtain ⟨h1, h2⟩ := hrow r hr
+          rw [step_drop _ _ _ _ r hr hq]
+          refine ⟨hle, ?_⟩
           intro r2 hr2
           simp only [Option.some.injEq] at hr2
           subst hr2
-          refine ⟨?_, by simp only; omega, by rw [seenMax_push, h3]⟩
-          simp only [pushMessage, copyWithAttempts, delivered]; omega
-        · simp only [hlt, if_false]
-          exact ⟨by simp only; omega, by simp⟩
-    · rw [step_stuck _ _ _ _ _ r hr hq]; exact ⟨hle, hrow⟩
+          exact ⟨by simp only [claimed]; omega, h2⟩
+        | handle => rw [step_handle _ _ _ _ r hr hq]; exact fix_handleMsg e sc hf s r hr h
+        | lose => rw [step_lose _ _ _ _ r hr hq]; exact fix_handleMsg e sc hf s r hr h
+      · rw [step_stuck _ _ _ _ _ hop' r hr hq]; exact h
 
-/-- state of the fixed chain after `k < limit` straight deliveries -/
-def FixAt (e : Env) (L : Nat) (s : State) (k : Nat) : Prop :=
-  s.execs = k ∧ s.done = none ∧ ∃ r, s.row = some r ∧ r.attempts = k ∧ seenMax e r = L
+/-- state of the chain after `k < limit` straight deliveries -/
+def FixAt (s : State) (k : Nat) : Prop :=
+  s.execs = k ∧ s.done = none ∧ ∃ r, s.row = some r ∧ r.attempts = k
 
 def Final (L : Nat) (s : State) : Prop :=
   s.execs = L ∧ s.done = some .terminal ∧ s.row = none
 
-theorem fixAt_step (e : Env) (L : Nat) (hq : L ≤ e.qmax) (sc : Script) (hf : AlwaysFails sc)
-    (s : State) (k : Nat) (hk : k < L) (h : FixAt e L s k) :
-    (k + 1 < L → FixAt e L (step .fixed e sc s .handle).1 (k + 1)) ∧
-    (¬ k + 1 < L → Final L (step .fixed e sc s .handle).1) := by
-  obtain ⟨hx, hd, r, hr, ha, hmx⟩ := h
+theorem fixAt_step (e : Env) (hq : limit e ≤ e.qmax) (sc : Script) (hf : AlwaysFails sc)
+    (s : State) (k : Nat) (hk : k < limit e) (h : FixAt s k) :
+    (k + 1 < limit e → FixAt (step .fixed e sc s .handle).1 (k + 1)) ∧
+    (¬ k + 1 < limit e → Final (limit e) (step .fixed e sc s .handle).1) := by
+  obtain ⟨hx, hd, r, hr, ha⟩ := h
   obtain ⟨u, hu⟩ := hf s.execs
   rw [step_handle _ e sc s r hr (by omega)]
   simp only [handleMsg, hu, handleTransient, currentAttempts]
-  have hem : effMax (delivered e r) = L := by rw [effMax_delivered, hmx]
+  have hem : effMax (delivered e r) = limit e := effMax_delivered e r
   have hda : (delivered e r).attempts = k + 1 := by simp [delivered, ha]
   constructor
   · intro hlt
     have hc : (delivered e r).attempts - 1 + 1 < effMax (delivered e r) := by rw [hem, hda]; omega
     simp only [hc, if_true]
-    refine ⟨by simp [hx], hd, _, rfl, ?_, by rw [seenMax_push, hmx]⟩
+    refine ⟨by simp [hx], hd, _, rfl, ?_⟩
     simp only [pushMessage, copyWithAttempts, hda]; omega
   · intro hge
     have hc : ¬ (delivered e r).attempts - 1 + 1 < effMax (delivered e r) := by rw [hem, hda]; omega
@@ -158,8 +192,14 @@ theorem final_stable (L : Nat) (e : Env) (sc : Script) (s : State) (h : Final L 
   | nil => simpa [run] using h
   | cons op ops ih =>
     apply ih
-    rw [step_noRow _ _ _ _ _ h.2.2]
-    exact h
+    by_cases hop : ∃ k, op = .redeliver k
+    · obtain ⟨k, rfl⟩ := hop
+      rw [step_redeliver]
+      obtain ⟨h1, _, h3, _, h5⟩ := redeliver_core e s k
+      unfold Final
+      rw [h1, h3, h5]; exact h
+    · rw [step_noRow _ _ _ _ _ (fun k hk => hop ⟨k, hk⟩) h.2.2]
+      exact h
 
 theorem merge_if (c u : Ctx) : (if u.isEmpty then c else merge c u) = merge c u := by
   cases u <;> simp [merge]
@@ -169,34 +209,47 @@ theorem merge_if (c u : Ctx) : (if u.isEmpty then c else merge c u) = merge c u 
 def CtxInv (sc : Script) (c : Ctx) (s : State) : Prop :=
   s.seen = (List.range s.execs).map (ctxAfter sc c) ∧ (s.row.isSome → s.ctx = ctxAfter sc c s.execs)
 
+theorem ctx_handleMsg (v : Variant) (e : Env) (sc : Script) (c : Ctx) (s : State) (r : Row)
+    (hr : s.row = some r) (h : CtxInv sc c s) : CtxInv sc c (handleMsg v sc s (delivered e r)).1 := by
+  obtain ⟨hs, hc⟩ := h
+  have hctx : s.ctx = ctxAfter sc c s.execs := hc (by simp [hr])
+  have hseen : s.seen ++ [s.ctx] = (List.range (s.execs + 1)).map (ctxAfter sc c) := by
+    rw [List.range_succ, List.map_append, hs, hctx]; rfl
+  simp only [handleMsg]
+  cases ha : sc.at s.execs with
+  | failT u =>
+    simp only []
+    cases ht : handleTransient v (delivered e r) with
+    | some rm =>
+      refine ⟨hseen, fun _ => ?_⟩
+      simp only [merge_if, ctxAfter, ha, updOf, hctx]
+    | none => exact ⟨hseen, by simp⟩
+  | failP => exact ⟨hseen, by simp⟩
+  | succeed u => exact ⟨hseen, by simp⟩
+  | running u =>
+    refine ⟨hseen, fun _ => ?_⟩
+    simp only [ctxAfter, ha, updOf, hctx]
+
 theorem ctx_step (v : Variant) (e : Env) (sc : Script) (c : Ctx) (s : State) (op : Op)
     (h : CtxInv sc c s) : CtxInv sc c (step v e sc s op).1 := by
-  obtain ⟨hs, hc⟩ := h
-  cases hr : s.row with
-  | none => rw [step_noRow _ _ _ _ _ hr]; exact ⟨hs, hc⟩
-  | some r =>
-    have hctx : s.ctx = ctxAfter sc c s.execs := hc (by simp [hr])
-    by_cases hq : r.attempts < e.qmax
-    · cases op with
-      | drop => rw [step_drop _ _ _ _ r hr hq]; exact ⟨hs, fun _ => hctx⟩
-      | handle =>
-        rw [step_handle _ _ _ _ r hr hq]
-        have hseen : s.seen ++ [s.ctx] = (List.range (s.execs + 1)).map (ctxAfter sc c) := by
-          rw [List.range_succ, List.map_append, hs, hctx]; rfl
-        simp only [handleMsg]
-        cases ha : sc.at s.execs with
-        | failT u =>
-          simp only []
-          cases ht : handleTransient v (delivered e r) with
-          | some rm =>
-            refine ⟨hseen, fun _ => ?_⟩
-            simp only [merge_if, ctxAfter, ha, updOf, hctx]
-          | none => exact ⟨hseen, by simp⟩
-        | failP => exact ⟨hseen, by simp⟩
-        | succeed u => exact ⟨hseen, by simp⟩
-        | running u =>
-          refine ⟨hseen, fun _ => ?_⟩
-          simp only [ctxAfter, ha, updOf, hctx]
-    · rw [step_stuck _ _ _ _ _ r hr hq]; exact ⟨hs, hc⟩
+  by_cases hop : ∃ k, op = .redeliver k
+  · obtain ⟨k, rfl⟩ := hop
+    rw [step_redeliver]
+    obtain ⟨h1, h2, h3, h4, _⟩ := redeliver_core e s k
+    unfold CtxInv
+    rw [h1, h2, h3, h4]; exact h
+  · have hop' : ∀ k, op ≠ .redeliver k := fun k hk => hop ⟨k, hk⟩
+    cases hr : s.row with
+    | none => rw [step_noRow _ _ _ _ _ hop' hr]; exact h
+    | some r =>
+      by_cases hq : r.attempts < e.qmax
+      · cases op with
+        | redeliver k => exact absurd rfl (hop' k)
+        | drop =>
+          rw [step_drop _ _ _ _ r hr hq]
+          exact ⟨h.1, fun _ => h.2 (by simp [hr])⟩
+        | handle => rw [step_handle _ _ _ _ r hr hq]; exact ctx_handleMsg v e sc c s r hr h
+        | lose => rw [step_lose _ _ _ _ r hr hq]; exact ctx_handleMsg v e sc c s r hr h
+      · rw [step_stuck _ _ _ _ _ hop' r hr hq]; exact h
 
 end Stab.Props.C14
